@@ -54,7 +54,11 @@ IsListKind == Kind \in {"list", "list2"}
 LSpec == IF Kind = "obj" THEN ListS(ElemS, 0, 2)                           \* the object's list may be empty, holds at most 2
          ELSE IF Kind = "list2" THEN ListS(ElemS, 2, 5) ELSE ListS(ElemS, 1, 3)
 \* k2 of the dict is noneable with a non-None default, k2 of the object is noneable AND frozen to 1
-DSpec == DictS(<< <<1, IntS(0, NONE, FALSE)>>, <<2, Dflt(NonOf(I0), IntV(1))>>, <<3, LSpec>>, <<0, StrS>> >>)
+\* The dynamic key field is declared BEFORE constant keys, one of which (d5) has a name the dynamic pattern matches
+\* too: a declared constant key always wins.  The non-partial dict uses the regex key StrKey('^d') (keys 5..8 = 'd5'..
+\* 'd8'; 'k9' is undeclared), the partial-mode dict the unconstrained StrKey() (every other key is dynamic).
+DSpec == DictS(<< <<1, IntS(0, NONE, FALSE)>>, <<(IF InitPartial THEN -1 ELSE 0), StrS>>, <<2, Dflt(NonOf(I0), IntV(1))>>,
+                  <<3, LSpec>>, <<5, IntS(0, NONE, FALSE)>> >>)
 \* k10 of the object is a list that must stay empty (size = 0)
 OSpec == DictS(<< <<1, IntS(0, NONE, FALSE)>>, <<2, Frz(NonOf(I0), IntV(1))>>, <<3, LSpec>>, <<4, NonOf(StrS)>>,
                   <<10, ListS(ElemS, 0, 0)>> >>)
@@ -98,7 +102,7 @@ NestPool == {AVal(BVal(IntV(0))), AVal(BVal(IntV(2))), AVal(BVal(VMissing)), AVa
 FieldPool == IF Kind = "nest" THEN NestPool
              ELSE (IF Small THEN {IntV(0), IntV(-1), StrV(1), VNone, VMissing}
                    ELSE {IntV(0), IntV(1), IntV(2), IntV(-1), StrV(1), StrV(2), VNone, VMissing}) \cup ListPool
-DictKeys == IF Small THEN {1, 2, 3, 7, 9} ELSE {1, 2, 3, 7, 8, 9}           \* 7, 8 dynamic; 9 undeclared
+DictKeys == IF Small THEN {1, 2, 3, 5, 7, 9} ELSE {1, 2, 3, 5, 7, 8, 9}     \* 5 constant 'd5'; 7, 8 dynamic; 9 undeclared (dynamic under StrKey())
 ObjKeys == {1, 2, 3, 4, 9, 10}
 KeysOf == IF Kind = "dict" THEN DictKeys ELSE IF Kind = "nest" THEN {1, 2, 3, 9} ELSE ObjKeys
 Scopes == {"N", "T", "F"}                \* no allow_partial scope / allow_partial(True) / allow_partial(False)
@@ -257,7 +261,8 @@ DSetDefault == /\ "dset" \in Acts /\ Kind = "dict"
                           "N", <<"DSetDefault", "N", k, v>>)
 \* batches of two field writes on different keys: update / |= / rebind with two paths
 BatchPool == IF Small THEN {IntV(0), IntV(-1), StrV(1)} ELSE FieldPool \ {VMissing}
-Batch2(name) == \E k1 \in P(KeysOf), k2 \in P(KeysOf), v1 \in P(BatchPool), v2 \in P(BatchPool), sc \in P(Scopes) :
+BatchKeys == IF Small /\ Kind = "dict" THEN {1, 5, 7, 9} ELSE KeysOf
+Batch2(name) == \E k1 \in P(BatchKeys), k2 \in P(BatchKeys), v1 \in P(BatchPool), v2 \in P(BatchPool), sc \in P(Scopes) :
   /\ k1 # k2
   /\ (sc = "N" \/ (~Small /\ (HasMissing(v1) \/ HasMissing(v2))))      \* the scope matters for partial values only
   /\ (IsTyped(v1) => k1 = TypedKey) /\ (IsTyped(v2) => k2 = TypedKey)
@@ -363,9 +368,9 @@ InitRoots ==
     [] Kind = "list2" -> {L3, ListV(<<IntV(1), IntV(2), IntV(0), IntV(1)>>), ListV(<<IntV(1), IntV(2), IntV(0), IntV(1), IntV(2)>>)}
     [] Kind = "nest" -> {DictV(<< <<1, AVal(BVal(IntV(1)))>>, <<2, IntV(1)>>, <<3, DictV(<< <<1, IntV(0)>>, <<2, IntV(1)>> >>)>> >>)}
                         \cup (IF InitPartial THEN {DictV(<< <<1, VMissing>>, <<2, IntV(1)>>, <<3, DictV(<< <<1, VMissing>>, <<2, IntV(1)>> >>)>> >>)} ELSE {})
-    [] Kind = "dict" -> {DictV(<< <<1, IntV(0)>>, <<2, IntV(1)>>, <<3, l>> >>) : l \in {L1, L3}}
-                        \cup {DictV(<< <<1, IntV(2)>>, <<2, IntV(0)>>, <<3, L1>>, <<7, StrV(1)>> >>)}
-                        \cup (IF InitPartial THEN {DictV(<< <<1, VMissing>>, <<2, IntV(1)>>, <<3, L1>> >>)} ELSE {})
+    [] Kind = "dict" -> {DictV(<< <<1, IntV(0)>>, <<2, IntV(1)>>, <<3, l>>, <<5, IntV(1)>> >>) : l \in {L1, L3}}
+                        \cup {DictV(<< <<1, IntV(2)>>, <<2, IntV(0)>>, <<3, L1>>, <<5, IntV(0)>>, <<7, StrV(1)>> >>)}
+                        \cup (IF InitPartial THEN {DictV(<< <<1, VMissing>>, <<2, IntV(1)>>, <<3, L1>>, <<5, IntV(1)>> >>)} ELSE {})
     [] Kind = "obj" -> {DictV(<< <<1, IntV(0)>>, <<2, IntV(1)>>, <<3, l>>, <<4, w>>, <<10, ListV(<<>>)>> >>) : l \in {L1, ListV(<<IntV(1), IntV(2)>>)}, w \in {VNone, StrV(1)}}
                         \cup (IF InitPartial THEN {DictV(<< <<1, VMissing>>, <<2, IntV(1)>>, <<3, L1>>, <<4, VNone>>, <<10, ListV(<<>>)>> >>)} ELSE {})
 Init == /\ root \in InitRoots /\ pok = InitPartial /\ out = "ok" /\ alts = {root} /\ act = <<"Init">>
